@@ -16,9 +16,43 @@ use std::panic::{catch_unwind, AssertUnwindSafe};
 use std::path::{Path, PathBuf};
 
 fn rel(p: &Path, root: &Path) -> String {
-    let s = p.to_string_lossy().to_string();
+    let s = lossy_ff(p);
     let r = root.to_string_lossy().to_string();
     s.replace(&r, "@ROOT@")
+}
+
+/// `@FF@` in a path of a case stands for the single raw byte 0xFF: a path that is NOT valid UTF-8 (file names,
+/// search-list and QASM3_PATH entries may be arbitrary bytes on Unix; the case file itself is JSON text)
+fn os_ff(s: &str) -> PathBuf {
+    use std::os::unix::ffi::OsStringExt;
+    let mut out: Vec<u8> = Vec::new();
+    let mut rest = s;
+    while let Some(i) = rest.find("@FF@") {
+        out.extend_from_slice(rest[..i].as_bytes());
+        out.push(0xFF);
+        rest = &rest[i + 4..];
+    }
+    out.extend_from_slice(rest.as_bytes());
+    PathBuf::from(std::ffi::OsString::from_vec(out))
+}
+
+/// inverse of `os_ff` for printing: raw 0xFF bytes are shown as `@FF@` (other invalid bytes lossily)
+fn lossy_ff(p: &Path) -> String {
+    use std::os::unix::ffi::OsStrExt;
+    let b = p.as_os_str().as_bytes();
+    let mut out = String::new();
+    let mut cur: Vec<u8> = Vec::new();
+    for &x in b {
+        if x == 0xFF {
+            out.push_str(&String::from_utf8_lossy(&cur));
+            cur.clear();
+            out.push_str("@FF@");
+        } else {
+            cur.push(x);
+        }
+    }
+    out.push_str(&String::from_utf8_lossy(&cur));
+    out
 }
 
 fn show_src(f: &SourceFile, root: &Path) -> String {
@@ -122,7 +156,7 @@ fn run(case: &Value, base: &Path) -> String {
     let root = std::fs::canonicalize(&root).unwrap();
     if let Some(files) = case["files"].as_object() {
         for (p, c) in files {
-            let fp = root.join(p);
+            let fp = root.join(os_ff(p));
             if let Some(parent) = fp.parent() {
                 std::fs::create_dir_all(parent).unwrap();
             }
@@ -135,7 +169,7 @@ fn run(case: &Value, base: &Path) -> String {
     }
     if let Some(dirs) = case["dirs"].as_array() {
         for d in dirs {
-            std::fs::create_dir_all(root.join(d.as_str().unwrap_or("."))).unwrap();
+            std::fs::create_dir_all(root.join(os_ff(d.as_str().unwrap_or(".")))).unwrap();
         }
     }
     let rootstr = root.to_string_lossy().to_string();
@@ -145,7 +179,7 @@ fn run(case: &Value, base: &Path) -> String {
             a.iter()
                 .map(|x| {
                     let s = x.as_str().unwrap_or("").replace("@ROOT@", &rootstr);
-                    PathBuf::from(s)
+                    os_ff(&s)
                 })
                 .collect()
         })
@@ -163,7 +197,7 @@ fn run(case: &Value, base: &Path) -> String {
     let mainfile = case["mainfile"].as_str().unwrap_or("main.qasm").to_string();
     let mainarg = case["mainarg"].as_str().map(|s| s.replace("@ROOT@", &rootstr));
     if entry == "file" {
-        let fp = root.join(&mainfile);
+        let fp = root.join(os_ff(&mainfile));
         if let Some(parent) = fp.parent() {
             std::fs::create_dir_all(parent).unwrap();
         }
@@ -171,8 +205,8 @@ fn run(case: &Value, base: &Path) -> String {
     }
     let out = catch_unwind(AssertUnwindSafe(|| {
         if entry == "file" {
-            let arg = mainarg.clone().unwrap_or_else(|| root.join(&mainfile).to_string_lossy().to_string());
-            let result = parse_source_file_with_search(PathBuf::from(arg), search.as_deref());
+            let arg = mainarg.clone().map(|a| os_ff(&a)).unwrap_or_else(|| root.join(os_ff(&mainfile)));
+            let result = parse_source_file_with_search(arg, search.as_deref());
             let top = result.syntax_result();
             let (eq, ne) = top.ast().map_or(("-".to_string(), "-".to_string()), |a| tree_facts(a, Some(&main)));
             let xmain = format!("{}:{}:{}:{}", rel(top.file_path(), &root), top.ast().map_or(0, |a| a.errors().len()), eq, ne);
